@@ -1,15 +1,130 @@
 package main
 
 import (
+	"bytes"
 	"fmt"
+	"io"
 	"math"
 	"runtime"
 	"sync"
 	"sync/atomic"
+	"testing/iotest"
 
+	"github.com/biogo/hts/cram"
 	"github.com/biogo/hts/cram/encoding/itf8"
 	"github.com/biogo/hts/cram/encoding/ltf8"
 )
+
+// CRAM specification 2.3, by arithmetic (independent of the library and of the Lean model).
+func c20SpecItf8(u uint32) []byte {
+	x := uint64(u)
+	switch {
+	case x < 1<<7:
+		return []byte{byte(x)}
+	case x < 1<<14:
+		return []byte{byte(0x80 + x/256), byte(x % 256)}
+	case x < 1<<21:
+		return []byte{byte(0xc0 + x/65536), byte(x / 256 % 256), byte(x % 256)}
+	case x < 1<<28:
+		return []byte{byte(0xe0 + x/(1<<24)), byte(x / 65536 % 256), byte(x / 256 % 256), byte(x % 256)}
+	}
+	return []byte{byte(0xf0 + x/(1<<28)), byte(x / (1 << 20) % 256), byte(x / (1 << 12) % 256), byte(x / 16 % 256), byte(x % 256)}
+}
+
+func c20SpecLtf8(u uint64) []byte {
+	prefix := []uint64{0, 0x80, 0xc0, 0xe0, 0xf0, 0xf8, 0xfc, 0xfe, 0xff}
+	n := 9
+	for k := 1; k <= 8; k++ {
+		if u>>(uint(7*k)) == 0 {
+			n = k
+			break
+		}
+	}
+	out := make([]byte, n)
+	for i := n - 1; i >= 1; i-- {
+		out[i] = byte(u % 256)
+		u /= 256
+	}
+	out[0] = byte(prefix[n-1] + u)
+	if n == 9 {
+		out[0] = 0xff
+	}
+	return out
+}
+
+// c20Stream exercises the cram stream reader on src: whole, through a one-byte reader, and is compared
+// with the model. Returns the canonical outcome "v consumed" | "eof" | "ueof" | "err".
+func c20Stream(c *ctx, codec string, src []byte, d *Driver, impl *[]string) string {
+	r := c.res
+	in := c20Input{Codec: codec, Kind: "stream", Bytes: hexs(src)}
+	run := func(rd io.Reader, left func() int) string {
+		var v int64
+		var err error
+		o := guard(func() {
+			if codec == "itf8" {
+				var x int32
+				x, err = cram.VerifReadITF8(rd)
+				v = int64(x)
+			} else {
+				v, err = cram.VerifReadLTF8(rd)
+			}
+		})
+		switch {
+		case o.panicked:
+			return "panic:" + o.panicVal
+		case err == io.EOF:
+			return "eof"
+		case err == io.ErrUnexpectedEOF:
+			return "ueof"
+		case err != nil:
+			return "err"
+		}
+		return fmt.Sprintf("%d %d", v, len(src)-left())
+	}
+	br := bytes.NewReader(src)
+	whole := run(br, br.Len)
+	br2 := bytes.NewReader(src)
+	one := run(iotest.OneByteReader(br2), br2.Len)
+	if len(whole) >= 6 && whole[:6] == "panic:" {
+		r.fail(codec+".stream.panic", whole, in)
+	}
+	if whole != one {
+		r.fail(codec+".stream.shortreads", fmt.Sprintf("whole reader: %s, one-byte reader: %s", whole, one), in)
+	}
+	// oracle: announced width from the first byte, value by the specification's arithmetic
+	if len(src) > 0 {
+		max := 4
+		if codec == "ltf8" {
+			max = 8
+		}
+		ann := leadingOnes(src[0], max) + 1
+		isErr := whole == "eof" || whole == "ueof" || whole == "err"
+		if (len(src) < ann) != isErr {
+			r.fail(fmt.Sprintf("%s.stream.failiff%d", codec, ann), fmt.Sprintf("%d of %d announced bytes available, outcome %s", len(src), ann, whole), in)
+		}
+		if len(src) >= ann && !isErr {
+			var want string
+			if codec == "itf8" {
+				v, _, _ := itf8.Decode(append([]byte{}, src[:ann]...))
+				want = fmt.Sprintf("%d %d", v, ann)
+			} else {
+				v, _, _ := ltf8.Decode(append([]byte{}, src[:ann]...))
+				want = fmt.Sprintf("%d %d", v, ann)
+			}
+			if whole != want {
+				r.fail(fmt.Sprintf("%s.stream.value%d", codec, ann), fmt.Sprintf("stream reader gives %s, Decode of the announced prefix %s", whole, want), in)
+			}
+		}
+	} else if whole != "eof" {
+		r.fail(codec+".stream.empty", "empty stream is not io.EOF: "+whole, in)
+	}
+	if d != nil {
+		d.add("%s.stream %s", codec, hexs(src))
+		*impl = append(*impl, whole)
+	}
+	r.hist(codec + ".stream")
+	return whole
+}
 
 func init() { checks["C20"] = checkC20 }
 
@@ -58,6 +173,9 @@ func itf8Value(c *ctx, v int32, d *Driver, impl *[]string) {
 	if ln != n {
 		r.fail(cls+".len", fmt.Sprintf("Len=%d but Encode wrote %d", ln, n), in)
 	}
+	if want := c20SpecItf8(uint32(v)); !bytes.Equal(want, enc) {
+		r.fail(cls+".spec", fmt.Sprintf("Encode(%d) = %s, CRAM specification %s", v, hexs(enc), hexs(want)), in)
+	}
 	v2, n2, ok := itf8.Decode(enc)
 	if !ok || v2 != v || n2 != n {
 		r.fail(cls+".roundtrip", fmt.Sprintf("Decode(Encode(%d)) = (%d,%d,%v), encoded %s", v, v2, n2, ok, hexs(enc)), in)
@@ -65,6 +183,12 @@ func itf8Value(c *ctx, v int32, d *Driver, impl *[]string) {
 	v3, n3, ok3 := itf8.Decode(append(append([]byte{}, enc...), 0x55, 0xfe))
 	if !ok3 || v3 != v2 || n3 != n2 {
 		r.fail(cls+".trailing", "Decode depends on bytes after the encoding", in)
+	}
+	if sr := c20Stream(c, "itf8", append(append([]byte{}, enc...), 0x80, 0x01), d, impl); sr != fmt.Sprintf("%d %d", v, n) {
+		r.fail(cls+".stream.roundtrip", fmt.Sprintf("stream reader on Encode(%d)++junk gives %s", v, sr), in)
+	}
+	for k := 1; k < n; k++ {
+		c20Stream(c, "itf8", enc[:k], d, impl)
 	}
 	if d != nil {
 		d.add("itf8.enc %d", v)
@@ -102,6 +226,9 @@ func ltf8Value(c *ctx, v int64, d *Driver, impl *[]string) {
 	if ln != n {
 		r.fail(cls+".len", fmt.Sprintf("Len=%d but Encode wrote %d", ln, n), in)
 	}
+	if want := c20SpecLtf8(uint64(v)); !bytes.Equal(want, enc) {
+		r.fail(cls+".spec", fmt.Sprintf("Encode(%d) = %s, CRAM specification %s", v, hexs(enc), hexs(want)), in)
+	}
 	v2, n2, ok := ltf8.Decode(enc)
 	if !ok || v2 != v || n2 != n {
 		r.fail(cls+".roundtrip", fmt.Sprintf("Decode(Encode(%d)) = (%d,%d,%v), encoded %s", v, v2, n2, ok, hexs(enc)), in)
@@ -109,6 +236,12 @@ func ltf8Value(c *ctx, v int64, d *Driver, impl *[]string) {
 	v3, n3, ok3 := ltf8.Decode(append(append([]byte{}, enc...), 0x55, 0xfe))
 	if !ok3 || v3 != v2 || n3 != n2 {
 		r.fail(cls+".trailing", "Decode depends on bytes after the encoding", in)
+	}
+	if sr := c20Stream(c, "ltf8", append(append([]byte{}, enc...), 0x80, 0x01), d, impl); sr != fmt.Sprintf("%d %d", v, n) {
+		r.fail(cls+".stream.roundtrip", fmt.Sprintf("stream reader on Encode(%d)++junk gives %s", v, sr), in)
+	}
+	for k := 1; k < n; k++ {
+		c20Stream(c, "ltf8", enc[:k], d, impl)
 	}
 	if d != nil {
 		d.add("ltf8.enc %d", v)
@@ -138,6 +271,22 @@ func c20Bytes(c *ctx, codec string, b []byte, d *Driver, impl *[]string) {
 		r.fail(codec+".decode.panic", o.panicVal, in)
 		return
 	}
+	{
+		// the same bytes as a prefix of a larger buffer: bytes beyond len(b) must play no role
+		big := make([]byte, len(b)+12)
+		copy(big, b)
+		for i := len(b); i < len(big); i++ {
+			big[i] = 0xee
+		}
+		var v2 int64
+		var n2 int
+		var ok2 bool
+		o2 := guard(func() { v2, n2, ok2 = dec(big[:len(b)]) })
+		if o2.panicked || v2 != v || n2 != n || ok2 != ok {
+			r.fail(codec+".decode.sparecap", fmt.Sprintf("Decode(b) = (%d,%d,%v) but (%d,%d,%v) when b is a prefix of a larger buffer", v, n, ok, v2, n2, ok2), in)
+		}
+	}
+	c20Stream(c, codec, b, d, impl)
 	max := 4
 	if codec == "ltf8" {
 		max = 8
@@ -332,6 +481,12 @@ func c20One(c *ctx, in c20Input, d *Driver, impl *[]string) {
 		itf8Value(c, int32(in.Value), d, impl)
 	case in.Kind == "value" && in.Codec == "ltf8":
 		ltf8Value(c, in.Value, d, impl)
+	case in.Kind == "stream":
+		var b []byte
+		if in.Bytes != "-" && in.Bytes != "" {
+			fmt.Sscanf(in.Bytes, "%x", &b)
+		}
+		c20Stream(c, in.Codec, b, d, impl)
 	case in.Kind == "bytes":
 		var b []byte
 		if in.Bytes != "-" && in.Bytes != "" {
